@@ -445,7 +445,10 @@ func (in *Interp) runPath(fn *ssa.Function, prefix []int) (kind, msg string) {
 			case unsupportedErr:
 				kind, msg = "unsupported", e.msg
 				if in.cur != nil && in.cur.top() != nil {
-					msg += " @ " + in.cur.top().fn.String()
+					msg += " @"
+					for k := len(in.cur.stack) - 1; k >= 0 && k >= len(in.cur.stack)-6; k-- {
+						msg += " < " + in.cur.stack[k].fn.String()
+					}
 				}
 			case mergeAbort:
 				kind, msg = "unsupported", "stray merge abort: "+e.why
